@@ -378,9 +378,80 @@ def r5(ctx):
     ctx.floor("C14.R5", 4)
 
 
+def eval_drop(f, entry, handles):
+    """the actor's DropReplica handler (the closure that calls Store::remove_replica) evaluated (K6') on the document's open
+    state: `entry` vacant / occupied with `handles` handles. The store refuses the removal while the document is open.
+    Returns (handler path, result, handles afterwards | None if the state was removed, log)."""
+    from . import feval as E
+    OR = "actor::OpenReplica"
+    cands = [b for p_, b in f.bodies.items() if p_.startswith("actor::Actor::") and any(callee_matches(t, r"store::fs::Store::remove_replica$") for _, t in b.calls())]
+    if len(cands) != 1:
+        raise mir.AnchorMissing("expected one body in actor::Actor calling Store::remove_replica (the DropReplica handler), found %s" % [b.path for b in cands])
+    h = cands[0]
+    log = _Log()
+    base = _map_oracle(E, entry, log)
+
+    def oracle(kind, name, payload, site):
+        if kind == "call":
+            t, args, it = payload
+            if callee_matches(t, r"store::fs::Store::remove_replica$"):
+                still_open = entry == "occupied" and ("remove",) not in log
+                log.append(("remove_replica", "refused" if still_open else "ok"))
+                return E.Err(E.Tok("replica-is-not-closed")) if still_open else E.Ok(E.UNIT)
+            if callee_matches(t, r"store::fs::Store::close_replica$"):
+                log.append(("close_replica",))
+                return E.UNIT
+            if name in ("msg", "new", "from") and "anyhow" in (t["f"].get("path") or "") + (t["f"].get("full") or ""):
+                return E.Tok("error")
+        return base(kind, name, payload, site)
+    actor = E.struct(f, "actor::Actor", states=E.struct(f, "actor::OpenReplicas", **{"0": E.Tok("map")}), store=E.Tok("store"))
+    heap = {"this": actor, "state": E.struct(f, OR, info=E.Tok("info0"), sync=E.Int(0), handles=E.Int(handles))}
+    inl = tuple(p_ for p_ in f.bodies if p_.startswith("actor::Actor::") or p_.startswith("actor::OpenReplicas::"))
+    if h.kind == "closure":
+        args = E.default_args(f, h.path, heap)
+        # closure parameters after the environment: the actor (`this`)
+        args = [args[0]] + [E.href("this")] * (h.rec["argc"] - 1)
+        # the namespace is a captured variable
+    else:
+        args = [E.href("this"), E.Tok("namespace")]
+    try:
+        ret, itp = E.run_it(f, h.path, args, heap, oracle, inline=inl)
+        got = E.describe(ret, f)
+    except E.Unsupported as e:
+        return h, "UNSUPPORTED-FORM: %s" % e, None, log
+    after = None if ("remove",) in log else E.describe(E.field(f, itp.heap["state"], OR, "handles"), f)
+    return h, got, after, log
+
+
+def r6(ctx):
+    """a drop request against the handle count: dropping is refused while another handle keeps the document open, and a
+    refused drop must leave the count alone (`every open adds a handle and every close releases one`: nothing else does)"""
+    f = ctx.facts
+    for entry, handles in (("vacant", 0), ("occupied", 1), ("occupied", 2), ("occupied", 5)):
+        h, got, after, log = eval_drop(f, entry, handles)
+        ctx.touch(h)
+        problems = []
+        if got.startswith("UNSUPPORTED"):
+            problems.append(got)
+        elif entry == "vacant" or handles == 1:
+            if not got.startswith("Ok"):
+                problems.append("the only holder (or nobody) holds the document, yet the drop fails")
+            if ("remove_replica", "ok") not in log:
+                problems.append("the store's remove_replica was not reached with the document closed")
+        else:
+            if got.startswith("Ok"):
+                problems.append("a document held by %d handles was dropped" % handles)
+            if after != str(handles):
+                problems.append("the refused drop changed the handle count from %d to %s" % (handles, after if after is not None else "closed"))
+        ctx.check(not problems, "C14.R6", h.path, "drop[%s%s]" % (entry, ",handles=%d" % handles if entry == "occupied" else ""),
+                  "returns %s, handles afterwards %s, events %s; %s" % (got, after if after is not None else "(state removed)", list(log), "; ".join(problems) or "as specified"), h.sp)
+    ctx.floor("C14.R6", 4)
+
+
 def run(ctx):
     ctx.run_rule("C14.R1", r1)
     ctx.run_rule("C14.R2", r2)
     ctx.run_rule("C14.R3", r3)
     ctx.run_rule("C14.R4", r4)
     ctx.run_rule("C14.R5", r5)
+    ctx.run_rule("C14.R6", r6)
